@@ -1,7 +1,7 @@
 """C15: scalar size logic of the Davidson base class, translated from JDSymEigsBase.h on every run.
 
   Gen.JD.jd_ctor_sizes   <- member initialisers of JDSymEigsBase(op, nev, nvec_init, nvec_max)
-  Gen.JD.jd_initialize   <- JDSymEigsBase::initialize (clamps: max <= n, init + corr <= n or both n/3)
+  Gen.JD.jd_initialize   <- JDSymEigsBase::initialize (clamps: max <= n, init >= nev, init + corr <= n or init = max(n/3, nev), corr = min(n/3, n - init))
   (JDSymEigsBase::check_argument is Gen.Guard.jd_check_argument, owned by C12)
 
 The loop of `compute_with_guess` mixes Eigen objects and CRTP calls and is outside the translator subset: it is hand-modelled
@@ -24,7 +24,8 @@ JD = [
     _ctor('jd_ctor_sizes', ['m_max_search_space_size', 'm_initial_search_space_size', 'm_correction_size']),
     T('jd_initialize', 'JDSymEigsBase::initialize', JDH, mode='state',
       state_out=['m_max_search_space_size', 'm_initial_search_space_size', 'm_correction_size'],
-      members=_mem, methods=_meth, ret_type='Int × Int × Int'),
+      members=_mem, methods=_meth, ret_type='Int × Int × Int',
+      member_order=['m_max_search_space_size', 'm_initial_search_space_size', 'm_correction_size', 'm_number_eigenvalues', 'm_matrix_operator']),
 ]
 
 MODULES = [('JD', JD, '')]
